@@ -24,6 +24,7 @@ package rules
 
 import (
 	"fmt"
+	"math"
 	"unicode/utf8"
 
 	"github.com/kstenerud/go-concise-encoding/ce/events"
@@ -150,7 +151,7 @@ func (_this *Context) BeginArrayMediaData() {
 }
 
 func (_this *Context) BeginChunkAnyType(elemCount uint64, moreChunksFollow bool) {
-	_this.chunkExpectedByteCount = common.ElementCountToByteCount(_this.arrayType.ElementSize(), elemCount)
+	_this.chunkExpectedByteCount = _this.elementCountToByteCount(_this.arrayType, elemCount)
 	_this.markUpcomingChunkByteCount(_this.chunkExpectedByteCount)
 	_this.chunkActualByteCount = 0
 	_this.moreChunksFollow = moreChunksFollow
@@ -328,11 +329,23 @@ func (_this *Context) ValidateFullArrayMarkerIDString(arrayType events.ArrayType
 }
 
 func (_this *Context) ValidateByteCountForType(arrayType events.ArrayType, elementCount uint64, byteCount uint64) {
-	expectedByteCount := common.ElementCountToByteCount(arrayType.ElementSize(), elementCount)
+	expectedByteCount := _this.elementCountToByteCount(arrayType, elementCount)
 	if byteCount != expectedByteCount {
 		panic(fmt.Errorf("expected %d bytes (%d elements of %d bits) but got %d bytes",
 			expectedByteCount, elementCount, arrayType.ElementSize(), byteCount))
 	}
+}
+
+// Converts an element count to the byte count needed to hold it, rejecting
+// element counts whose size in bits cannot be represented. Such a count would
+// otherwise wrap around to a small byte count, and an array declaring e.g.
+// 2^58+1 64-bit elements would be accepted with only 8 bytes of data.
+func (_this *Context) elementCountToByteCount(arrayType events.ArrayType, elementCount uint64) uint64 {
+	elementBitWidth := arrayType.ElementSize()
+	if elementBitWidth > 1 && elementCount > math.MaxUint64/uint64(elementBitWidth) {
+		panic(fmt.Errorf("%v element count %d is too large", arrayType, elementCount))
+	}
+	return common.ElementCountToByteCount(elementBitWidth, elementCount)
 }
 
 func (_this *Context) AssertArrayType(contextDesc string, arrayType events.ArrayType, allowedTypes DataType) {
